@@ -286,7 +286,34 @@ def op_simple(rng, pool, docs):
     return 'simple %s %d%s' % (rng.choice(docs + ['-']), base, ' short' if short else '')
 
 
-EXTRA = dict(block=(8, op_block), settimes=(3, op_settimes), copy=(3, op_copy), deepcopy=(2, op_deepcopy),
+def op_collide(rng, pool, docs):
+    """An element already in a document is given the ID V through set(Id); another element of the same kind, pre-set to
+    the same V, is added afterwards (C05: the assigner must look at the document, not at what it issued itself)."""
+    kinds = [k for k in KINDS if len(pool.by_kind[k]) >= 2]
+    if not kinds:
+        return None
+    k = rng.choice(kinds)
+    e, u = rng.sample(pool.by_kind[k], 2)
+    d = rng.choice(docs)
+    if k == 'uid':
+        v = rng.choice([6, 16, 17, 300, 0x1001, 0x2000, 0x12345])
+        i = (0, v, 0)
+    else:
+        v = rng.choice([0x1001, 0x1002, 0x1004, 0x1010, 0x1100, 0x2000, 0xff00])
+        ty = pool.td.get(e, 0) if k in ('pack', 'chan') else (rng.choice([0, 1, 3]) if k in ('stream', 'track') else 0)
+        i = (ty, v, rng.choice([1, 2, 7]) if k == 'track' else 0)
+    lines = []
+    if rng.random() < 0.8:
+        lines.append('add %s %s' % (d, e))
+    lines.append('setid %s %d %d %d' % ((e,) + i))
+    if rng.random() < 0.3:
+        lines.append('lookup %s %s %d %d %d' % ((d, k) + i))
+    lines.append('setid %s %d %d %d' % ((u,) + i))
+    lines.append('add %s %s' % (d, u))
+    return lines
+
+
+EXTRA = dict(collide=(8, op_collide), block=(8, op_block), settimes=(3, op_settimes), copy=(3, op_copy), deepcopy=(2, op_deepcopy),
              deepcopyto=(2, op_deepcopyto), reassign=(3, op_reassign), trace=(3, op_trace), fixdur=(3, op_fixdur),
              simple=(3, op_simple))
 
